@@ -33,6 +33,8 @@ import Lattigo.Proofs.KeySwitchHoisted
 import Lattigo.Proofs.KeySwitchDigits
 import Lattigo.Props.C04Ring
 import Lattigo.Props.C04Noise
+import Lattigo.Props.C04Gen
+import Lattigo.Props.C04Stack
 import Mathlib.Data.ZMod.Basic
 import Mathlib.Tactic.NormNum
 
